@@ -1160,8 +1160,49 @@ def check_setup(ctx, setup, lines, keep):
     else:
         ctx.fail('every call with valid arguments succeeds: run() with nominal values', case, err2, None)
 
+    # ---- clause 1 again, on a Tolerancing object with a history: range samplers left mid-cycle by earlier
+    # apply()/reset() calls (a Monte-Carlo preview, a manual trial).  The table then starts elsewhere in the
+    # range, which the property allows; every row must still pair the operand values with the value applied
+    if setup['analysis'] == 'SA' and not index_pert and (setup.get('pre_advance') or ctx.rng.random() < 0.6):
+        from optiland.tolerancing.sensitivity_analysis import SensitivityAnalysis
+        s4 = dict(setup)
+        s4['compensators'] = []
+        o4 = build_lens(setup['lens'])
+        t4 = build_tolerancing(o4, s4)
+        adv = setup.get('pre_advance') or [ctx.rng.randint(0, 2 * p['sampler']['steps']) for p in setup['perturbations']]
+        err4 = None
+        try:
+            with quiet():
+                for pert, k in zip(t4.perturbations, adv):
+                    for _ in range(k):
+                        pert.apply()
+                        t4.reset()
+                a4 = SensitivityAnalysis(t4)
+                a4.run()
+            rows4 = table_rows(s4, a4.get_results())
+        except Exception as e:  # noqa
+            err4, rows4 = type(e).__name__, []
+        if err4 is None and sa_assign(s4, rows4):
+            for ri, row in enumerate(rows4):
+                f = fresh_lens(setup, N)
+                try:
+                    apply_row(f, s4, row, None)
+                    got = evaluate_ops(f, s4)
+                except Exception as e:  # noqa
+                    got = [('error', type(e).__name__)]
+                if not ops_equal(row['ops'], got, 1e-9):
+                    c4 = dict(case)
+                    c4['pre_advance'] = adv
+                    ctx.fail('sensitivity run on a Tolerancing object whose samplers were used before: row %d '
+                             'pairs the operand values with the perturbation value that was applied' % ri,
+                             c4, {'value': row['pvalue'], 'ops': row['ops']}, got)
+                    break
+            ctx.count('sensitivity runs after earlier apply()/reset() calls')
+        elif err4 is not None and err is None:
+            ctx.fail('every call with valid arguments succeeds: run() after earlier apply()/reset() calls', case, err4, None)
+
     # ---- clause 3: seeded runs are reproducible
-    dists = [p for p in setup['perturbations'] if p['sampler']['kind'] == 'dist']
+    dists =[p for p in setup['perturbations'] if p['sampler']['kind'] == 'dist']
     stream = []
     if setup['analysis'] == 'MC' and dists:
         seeds = [p['sampler'].get('seed') for p in dists]
